@@ -103,24 +103,35 @@ fn run_set<S: PS>(ctx: &Ctx) -> Acc {
             }
         }
         // strict, non-faulting: only try_fill_bytes(32), exactly `requests` of them
-        acc.eval();
-        let script = g.bytes(96);
-        let r = guarded(|| {
-            let mut rng = RecordingRng::strict(&script);
-            let out = call::<S, _>(e, &sk, &mut rng, &m, &cx);
-            (out.is_ok(), rng.log.clone(), rng.pos)
-        });
-        let replay = json!({"kind":"c12-strict","set":S::SET,"entry":e.name(),"script":hex(&script)});
-        match r {
-            Err(pi) => acc.violation(&format!("C12|strict-panic|{}|{}", p.name, e.name()), format!("panic with a healthy strict RNG: {}", pi.message), replay),
-            Ok((ok, log, pos)) => {
-                let want = e.requests();
-                if !ok || log.len() != want || !log.iter().all(|c| *c == crate::rngs::Call::TryFill(32)) || pos != 32 * want {
-                    acc.violation(&format!("C12|rng-log|{}|{}", p.name, e.name()), format!("expected {want} x try_fill_bytes(32), observed {log:?} (ok={ok})"), replay);
-                } else {
-                    acc.count("strict_logs_ok", 1);
+        for attempt in 0..12 {
+            acc.eval();
+            let script = g.bytes(96);
+            let r = guarded(|| {
+                let mut rng = RecordingRng::strict(&script);
+                let out = call::<S, _>(e, &sk, &mut rng, &m, &cx);
+                (out.is_ok(), rng.log.clone(), rng.pos)
+            });
+            let replay = json!({"kind":"c12-strict","set":S::SET,"entry":e.name(),"script":hex(&script)});
+            match r {
+                Err(pi) if e == Entry::Dudect && cfg!(debug_assertions) && pi.message.starts_with("Alg ") && !pi.message.contains(INFALLIBLE_MARKER) => {
+                    // range self-check of the constant-time test path (C13's known finding F5): not an RNG event; draw again
+                    acc.count("dudect_selfcheck_panics_out_of_scope_see_C13", 1);
+                    if attempt == 11 {
+                        acc.inconclusive("dudect entry point: 12 consecutive draws tripped the CTEST range self-check".into());
+                    }
+                    continue;
+                }
+                Err(pi) => acc.violation(&format!("C12|strict-panic|{}|{}", p.name, e.name()), format!("panic with a healthy strict RNG: {}", pi.message), replay),
+                Ok((ok, log, pos)) => {
+                    let want = e.requests();
+                    if !ok || log.len() != want || !log.iter().all(|c| *c == crate::rngs::Call::TryFill(32)) || pos != 32 * want {
+                        acc.violation(&format!("C12|rng-log|{}|{}", p.name, e.name()), format!("expected {want} x try_fill_bytes(32), observed {log:?} (ok={ok})"), replay);
+                    } else {
+                        acc.count("strict_logs_ok", 1);
+                    }
                 }
             }
+            break;
         }
     }
     acc.sample(json!({"set": p.name, "fault_matrix": {"entries": entries.iter().map(|e| e.name()).collect::<Vec<_>>(), "fail_at": [0,1,2], "kinds": kinds.iter().map(|k| format!("{k:?}")).collect::<Vec<_>>()}, "example_cell": {"entry": "try_sign_with_rng", "fail_at": 0, "fault": "AfterPartial(16): 16 real bytes, 16 x 0xEE, then Err", "expected": "Err, no unwind"}}));
